@@ -29,25 +29,36 @@ Catalogues (all enumerated completely, nothing sampled)
                          alone reaches 508 bytes (and the short lengths 1..3) x 6 descriptions x interface lists
   sub-check `datagrams`: 6 identities (complete, truncated ASCII / multi-byte / escaped, identity too long, description of
                          control characters) x interface lists x start-up broadcast on/off x every datagram sequence of
-                         length <= 2 (quick) / 3 (thorough) over the 22 datagram kinds of DATAGRAMS; every sequence is
+                         length <= 2 (quick) / 3 (thorough) over the 29 datagram kinds of DATAGRAMS (7 of them
+                         longer than the 1024 byte receive buffer: 2 000 / 20 000 nested lists, 4 000 nested objects,
+                         5 000 digit number, huge exponent, 65 507 bytes of ASCII / binary garbage); every sequence is
                          followed by one more plain discovery request (the liveness probe)
   sub-check `server`   : Server.run for every interface configuration of SERVER_CFGS x every subset of interfaces that
                          fail to start; the listener created by the server receives one discovery request
-  sub-check `restart`  : Server.run through 1..2 (thorough: 3) iterations of its restart loop.  Plan = interface
-                         configuration of the first run (SERVER_CFGS) and, for every later run, the same list or one of
-                         ALT_CFGS (a restart_hook that reloads a changed configuration) x every subset of interfaces
-                         failing to start in every run (a port that can no longer be bound after the restart) x both orders
-                         of the interface threads.  Here the listener thread is a real thread under strict hand-off
-                         (ParkedThread): it runs only while the exploring thread waits for it and parks in recvfrom when
-                         nothing is queued - so a listener stays blocked, as in the running server, until its socket is
-                         closed.  While the node is up a discovery request is broadcast (it reaches EVERY socket still
-                         bound to the discovery port), then the environment calls dispatcher.restart() (= Server.restart;
-                         last run: Server.shutdown()), and after run() has returned one more request is broadcast.
-                         Oracle: in run k only the listener created in run k sends, every port it names belongs to a
-                         tcp:// interface opened in run k, the request is answered once per such port; after the end
-                         nothing is sent at all (the node listens on no port).  Signatures separate the listener of the
-                         current run (`C19:restart:{announce,answer}:...`) from a listener of a previous run that still
-                         answers (`C19:restart:listener-of-a-previous-run-still-answers:...`).
+  sub-check `restart`  : Server.run through 1..2 (thorough: 3) iterations of its restart loop with the REAL TCPServer
+                         (constructor with its bind-retry loop, server_bind / server_activate / server_close, context
+                         manager) and the real Server._interfaceThread on a fake TCP socket layer (the name `socket`
+                         inside socketserver and `time` inside frappy.protocol.interface.tcp are rebound for the
+                         duration of one case; only the accept loop serve_forever / shutdown is replaced: it refuses a
+                         socket that is not listening as the selector does, otherwise "accepts" until shut down).
+                         Plan = interface configuration of the first run (SERVER_CFGS) and, for every later run, the same
+                         list or one of ALT_CFGS (a restart_hook that reloads a changed configuration) x every subset of
+                         interfaces whose port can never be bound in every run x VARIANTS (bind of the other tcp ports
+                         succeeds after k = 0..4 refusals with EADDRINUSE; the unbindable ones get EADDRINUSE on every
+                         attempt or EACCES) x both orders of the interface threads.  Listener and interface threads are
+                         real threads under strict hand-off (ParkedThread): they run only while the exploring thread
+                         waits for them and park in recvfrom / in the accept loop - so they stay blocked, as in the
+                         running server, until closed / shut down.  While the node is up a discovery request is broadcast
+                         (it reaches EVERY socket still bound to the discovery port), then the environment calls
+                         dispatcher.restart() (= Server.restart; last run: Server.shutdown()), and after run() has
+                         returned one more request is broadcast.
+                         Oracle: in run k only the listener created in run k sends; every port it names is one on which
+                         the node accepts connections AT THAT MOMENT (a fake tcp socket bound + listening + not closed
+                         whose server is inside its accept loop - a registered interface whose serve_forever already
+                         failed is not listening); the request is answered once per such port; after the end nothing is
+                         sent at all.  Signatures separate the listener of the current run
+                         (`C19:restart:{announce,answer}:...:{first-run,after-restart}`) from a listener of a previous
+                         run that still answers (`C19:restart:listener-of-a-previous-run-still-answers:...`).
   interface lists: one tcp; tcp + ws; two tcp; port 1; port 65535; port 1 + 65535; four-digit port; ws only (no tcp)
   every `pure` / `mix` / `identity` case runs the real loop on [discovery request] and judges broadcast and answers.
 
@@ -84,13 +95,16 @@ Oracle calibration (weaker readings taken where the statement leaves latitude)
 import functools
 import itertools
 import json
+import errno
 import logging
+import os
 import re
 import threading
 
 from vf import core, nodes    # nodes binds get_version in frappy.protocol.discovery to a constant
 
 import frappy.protocol.discovery as discovery
+import frappy.protocol.interface.tcp
 import frappy.server
 
 PROPERTY = 'C19'
@@ -215,7 +229,17 @@ DATAGRAMS = {
     'junk-1024-ascii': (b'x' * 1024, NEVER, 'not-json'),
     'truncated-json': (b'{"SECoP":"disc', NEVER, 'not-json'),
     'empty': (b'', NEVER, 'not-json'),
+    # longer than the 1024 byte receive buffer of the code (the fake socket cuts to whatever buffer size the code asks
+    # for, as a UDP socket does: a responder asking for more gets more)
+    'oversize-nested-lists-2000': (b'[' * 2000, NEVER, 'oversize-nested-json'),
+    'oversize-nested-lists-20000': (b'[' * 20000, NEVER, 'oversize-nested-json'),
+    'oversize-nested-objects-4000': (b'{"a":' * 4000, NEVER, 'oversize-nested-json'),
+    'oversize-number-5000-digits': (b'1' * 5000, NEVER, 'oversize-number'),
+    'oversize-exponent': (b'1' + b'0' * 1500 + b'e' + b'9' * 1500, NEVER, 'oversize-number'),
+    'oversize-garbage-65507-ascii': (b'SECoP discover ' * 4367 + b'xx', NEVER, 'oversize-garbage'),
+    'oversize-garbage-65507-binary': (bytes(range(256)) * 255 + bytes(227), NEVER, 'oversize-garbage'),
 }
+assert len(DATAGRAMS['oversize-garbage-65507-ascii'][0]) == len(DATAGRAMS['oversize-garbage-65507-binary'][0]) == 65507
 DNAMES = list(DATAGRAMS)
 
 SERVER_CFGS = [      # (interface, secondary)
@@ -551,10 +575,10 @@ def shard_fn(shard):
                 for reverse in (False, True):
                     run_server(part, interface, secondary, list(fail), reverse)
     elif sub == 'restart':
-        _, idx = shard
+        _, idx, vi = shard
         for plan in restart_scenarios(idx, b['restart_runs']):
             for reverse in (False, True):
-                run_restart(part, plan, reverse)
+                run_restart(part, plan, reverse, VARIANTS[vi])
     else:
         raise core.Inconclusive(f'unknown shard {shard!r}')
     return part
@@ -698,16 +722,21 @@ def run_server(part, interface, secondary, fail, reverse=False):
 
 
 # ---------------------------------------------------------------------------------------------------------------
-# Server.run over several iterations (Server.restart): which listener says what in which run
+# Server.run over several iterations (Server.restart): which listener says what in which run, against the ports on
+# which the node really accepts connections at that moment (real TCPServer constructor on a fake TCP socket layer)
+
+CURRENT = {}        # thread ident -> ParkedThread
+
 
 class ParkedThread:
-    """the listener thread of Server.run: a real thread under strict hand-off - it only runs while the exploring thread
-    waits for it, and it runs until it has to wait in recvfrom with nothing to receive (parks) or ends.  So a listener
-    stays blocked in recvfrom, as in the running server, until somebody closes its socket."""
+    """a thread of Server.run (listener, interface) as a real thread under strict hand-off: it only runs while the
+    exploring thread waits for it, and it runs until it has to wait (recvfrom with nothing to receive, serve_forever
+    until shut down) - then it parks - or ends.  So a listener stays blocked in recvfrom and an interface stays in its
+    accept loop, as in the running server, until somebody closes / shuts it down."""
     TIMEOUT = 20
 
-    def __init__(self, func):
-        self.func = func
+    def __init__(self, func, args=(), kwds=None):
+        self.func, self.args, self.kwds = func, args, kwds or {}
         self.go = threading.Semaphore(0)
         self.back = threading.Semaphore(0)
         self.done = False
@@ -716,30 +745,43 @@ class ParkedThread:
         self.thread.start()
 
     def _main(self):
+        CURRENT[threading.get_ident()] = self
         self.go.acquire()
         try:
-            self.func()
+            self.func(*self.args, **self.kwds)
         except BaseException as e:      # noqa  the thread dies; recorded for the oracle
             self.exc = e
         self.done = True
+        CURRENT.pop(threading.get_ident(), None)
         self.back.release()
 
     def resume(self):
-        """exploring thread: let the listener run until it parks or ends"""
+        """exploring thread: let the thread run until it parks or ends"""
         if self.done:
             return
         self.go.release()
         if not self.back.acquire(timeout=self.TIMEOUT):
-            raise core.Inconclusive('listener thread did not come back')
+            raise core.Inconclusive('a thread of Server.run did not come back')
 
     def park(self):
-        """listener thread, inside recvfrom: nothing to receive"""
+        """the thread itself: it has to wait"""
         self.back.release()
         if not self.go.acquire(timeout=10 * self.TIMEOUT):
             raise OSError(9, 'harness gone')
 
     def join(self, timeout=None):
-        pass
+        """Server.run waits for an interface thread = the node is up: the environment acts"""
+        if WORLD is not None:
+            WORLD.main_waits()
+        if not self.done:
+            raise core.Inconclusive('Server.run would wait for ever for an interface thread')
+
+
+def current_parked():
+    me = CURRENT.get(threading.get_ident())
+    if me is None:
+        raise core.Inconclusive('blocking call outside a thread of Server.run')
+    return me
 
 
 class LiveSocket(ScriptedSocket):
@@ -768,54 +810,181 @@ class LiveSocket(ScriptedSocket):
 
     def sendto(self, data, addr):
         self.calls += 1
-        self.world.sends.append((self.world.run, self.world.down, self.index, self.consumed, bytes(data), addr))
+        w = self.world
+        w.sends.append((w.run, w.down, self.index, self.consumed, bytes(data), addr, tuple(w.accepting_tcp_ports())))
         return len(data)
 
     def close(self):
         self.closed = True
-        self.closed_by_code = not self.world.cleanup
         if self.thread is not None and threading.current_thread() is not self.thread.thread:
             self.thread.resume()        # the blocked recvfrom fails, the loop returns
 
 
+class FakeTcpSocket:
+    """stream socket of the fake TCP layer under socketserver: bind follows the plan of the World (EADDRINUSE for the
+    first k attempts on a port, another OSError, success); listening = bound + listen() + not closed"""
+    def __init__(self, family=-1, kind=-1, proto=-1, fileno=None):
+        self.port = None
+        self.listening = False
+        self.closed = False
+        WORLD.tcp_sockets.append(self)
+
+    def setsockopt(self, *args):
+        pass
+
+    def bind(self, addr):
+        port = addr[1]
+        WORLD.bind_attempts += 1
+        errs = WORLD.bind_errors.setdefault((WORLD.run, port), list(WORLD.bind_plan(port)))
+        if errs:
+            code = errs.pop(0)
+            raise OSError(code, os.strerror(code))
+        self.port = port
+
+    def getsockname(self):
+        return ('0.0.0.0', self.port)
+
+    def listen(self, backlog=0):
+        if self.closed or self.port is None:
+            raise OSError(errno.EBADF, 'Bad file descriptor')
+        self.listening = True
+
+    def fileno(self):
+        return -1 if self.closed else 1000 + WORLD.tcp_sockets.index(self)
+
+    def shutdown(self, how):
+        pass
+
+    def close(self):
+        self.closed = True
+        self.listening = False
+
+
+class AcceptLoop:
+    """stands in for the accept loop of an interface (socketserver's serve_forever / shutdown need real descriptors):
+    serve_forever refuses a socket that is not listening exactly as the selector does, otherwise the interface accepts
+    connections (parked) until shutdown()"""
+    _stop = False
+    _serving = None
+
+    def harness_listening(self):
+        raise NotImplementedError
+
+    def serve_forever(self, poll_interval=0.5):
+        me = current_parked()
+        if not self.harness_listening():
+            raise ValueError('Invalid file descriptor: -1')      # selector.register(closed socket)
+        self._serving = me
+        WORLD.accepting.append(self)
+        try:
+            while not self._stop:
+                me.park()
+        finally:
+            WORLD.accepting.remove(self)
+            self._serving = None
+
+    def shutdown(self):
+        self._stop = True
+        t = self._serving
+        if t is not None and not t.done and threading.current_thread() is not t.thread:
+            t.resume()
+
+
+class HarnessTCPServer(AcceptLoop, frappy.protocol.interface.tcp.TCPServer):
+    """the real TCPServer (constructor with its bind retries, server_bind / server_activate / server_close, context
+    manager) on the fake TCP socket layer; only the accept loop is replaced"""
+    def harness_listening(self):
+        return self.socket.listening and not self.socket.closed
+
+    def harness_port(self):
+        return self.socket.port
+
+
+class HarnessOtherInterface(AcceptLoop):
+    """any non-tcp interface (ws): fake, may fail to start"""
+    def __init__(self, scheme, logger, options, srv):
+        self.uri = options.pop('uri')
+        if self.uri in WORLD.failing_other():
+            raise OSError(errno.EADDRINUSE, f'Address already in use: {self.uri}')
+        self.open = True
+
+    def __enter__(self):
+        return self
+
+    def __exit__(self, *args):
+        self.open = False
+        return False
+
+    def harness_listening(self):
+        return self.open
+
+
+class SleepShim:
+    """the `time` name inside frappy.protocol.interface.tcp: sleeping takes no real time"""
+    def __init__(self):
+        self.slept = 0.0
+
+    def sleep(self, seconds):
+        self.slept += seconds
+
+    def __getattr__(self, name):
+        import time as _time
+        return getattr(_time, name)
+
+
 class World:
-    """environment of one Server.run execution: the runs planned, what was opened in which run, everything sent"""
-    def __init__(self, node, runs, reverse):
-        self.node, self.runs = node, runs
+    """environment of one Server.run execution: the runs planned, the TCP layer, everything sent"""
+    def __init__(self, node, runs, variant, reverse):
+        self.node, self.runs, self.variant = node, runs, variant
         self.run = 0                # index of the current iteration of Server.run
         self.down = False           # the node was shut down / run() ended: it listens on nothing
-        self.cleanup = False
-        self.sockets = []
-        self.sends = []             # (run, down, socket index, datagrams consumed, data, address)
-        self.started = [[] for _ in runs]
-        self.up_seen = [False] * len(runs)
-        self.pending = []
+        self.sockets = []           # datagram sockets of listeners
+        self.tcp_sockets = []
+        self.accepting = []         # interfaces inside their accept loop
+        self.sends = []             # (run, down, socket index, datagrams consumed, data, address, tcp ports accepting)
+        self.up_ports = {}          # run -> tcp ports accepting when the request of that run was broadcast
+        self.unstarted = []
+        self.threads = []
         self.reverse = reverse
         self.armed = False
+        self.bind_errors = {}
+        self.bind_attempts = 0
+
+    # --- the plan
+    def bind_plan(self, port):
+        run = self.runs[self.run]
+        uri = f'tcp://{port}'
+        if uri in failing_uris(run):
+            return [errno.EADDRINUSE] * 8 if self.variant['failkind'] == 'busy' else [errno.EACCES]
+        return [errno.EADDRINUSE] * self.variant['retries']
+
+    def failing_other(self):
+        return failing_uris(self.runs[self.run])
+
+    def accepting_tcp_ports(self):
+        return sorted(i.harness_port() for i in self.accepting if isinstance(i, HarnessTCPServer) and i.harness_listening())
 
     # --- stand-ins for threads in frappy.server
     def mkthread(self, func, *args, **kwds):
+        thread = ParkedThread(func, args, kwds)
+        self.threads.append(thread)
         owner = getattr(func, '__self__', None)
         if isinstance(owner, discovery.UDPListener):
-            thread = ParkedThread(func)
             owner.sock.thread = thread
             thread.resume()         # start-up broadcast, then parked in recvfrom
             self.armed = True       # this iteration of Server.run has its listener: the next join means "node is up"
-            return thread
-        self.pending.append((func, args, kwds))
-        return self
+        else:
+            self.unstarted.append(thread)      # Server.run still holds the lock the thread needs: started at wait()
+        return thread
 
-    def run_pending(self):
-        while self.pending:
-            func, args, kwds = self.pending.pop(-1 if self.reverse else 0)
-            func(*args, **kwds)
+    def start_threads(self):
+        while self.unstarted:
+            self.unstarted.pop(-1 if self.reverse else 0).resume()      # runs until it serves (parks) or fails
 
-    def join(self, timeout=None):
-        """Server.run waits for its interface threads = the node is up: the environment acts"""
-        self.run_pending()
+    def main_waits(self):
+        self.start_threads()
         if self.armed and not self.down:
             self.armed = False
-            self.up_seen[self.run] = True
             self.node_is_up()
 
     def deliver(self, data, addr):
@@ -827,6 +996,7 @@ class World:
 
     def node_is_up(self):
         k = self.run
+        self.up_ports[k] = self.accepting_tcp_ports()
         self.deliver(REQUEST, addr_of(k))
         if k + 1 < len(self.runs):
             nxt = self.runs[k + 1]
@@ -837,7 +1007,6 @@ class World:
                 if nxt['secondary']:
                     self.node.node_cfg['secondary'] = list(nxt['secondary'])
             self.node.restart_hook = hook       # a subclass may reload its configuration here
-            FakeInterface.FAIL = failing_uris(nxt)
             self.node.dispatcher.restart()      # what a `restart` request of the router does: Server.restart
             self.run = k + 1                    # the interfaces of run k are shut down now
         else:
@@ -845,35 +1014,35 @@ class World:
             self.down = True
 
     def finish(self):
-        """after run() returned: one more request, then close whatever the code under test left open"""
+        """after run() returned: one more request, then end whatever the code under test left running"""
         self.down = True
         self.deliver(REQUEST, addr_of(len(self.runs)))
+        return self.cleanup()
+
+    def cleanup(self):
         leaked = [s for s in self.sockets if not s.closed]
-        self.cleanup = True
         for sock in leaked:
             sock.close()
+        for iface in list(self.accepting):
+            iface.shutdown()
         return leaked
 
 
 WORLD = None
 
 
-class WorldInterface(FakeInterface):
-    def __init__(self, scheme, logger, options, srv):
-        super().__init__(scheme, logger, options, srv)
-        WORLD.started[WORLD.run].append(self.uri)
-
-
 def world_get_class(spec):
+    if spec == frappy.server.Server.INTERFACES['tcp']:
+        return HarnessTCPServer
     if spec in frappy.server.Server.INTERFACES.values():
-        return WorldInterface
+        return HarnessOtherInterface
     return _real_get_class(spec)
 
 
 class WorldMultiEvent(frappy.server.MultiEvent):
     def wait(self, timeout=None):
         if WORLD is not None:
-            WORLD.run_pending()
+            WORLD.start_threads()
         if self.events:
             raise core.Inconclusive(f'MultiEvent.wait would block: waiting for {self.waiting_for()}')
         return super().wait(timeout)
@@ -889,31 +1058,45 @@ def failing_uris(run):
 
 
 RESTART_EID, RESTART_DESC = 'ex.frappy.server', 'server started listener'
+VARIANTS = [        # EADDRINUSE answers to bind before it succeeds (interfaces that start) / how the others fail
+    {'retries': 0, 'failkind': 'busy'}, {'retries': 1, 'failkind': 'busy'}, {'retries': 2, 'failkind': 'eacces'},
+    {'retries': 3, 'failkind': 'busy'}, {'retries': 4, 'failkind': 'eacces'},
+]
 
 
-def run_restart(part, runs, reverse=False):
-    """the real Server.run through len(runs) iterations: run k opens runs[k] (minus the interfaces failing to start),
-    a discovery request is broadcast while the node is up, then Server.restart() (last run: Server.shutdown()),
-    a last request after the end.  Judged: who sent what in which run."""
+def run_restart(part, runs, reverse=False, variant=None):
+    """the real Server.run through len(runs) iterations: in run k bind succeeds for the tcp interfaces of runs[k] after
+    variant['retries'] refusals with EADDRINUSE, the interfaces listed in 'fail' never get their port (EADDRINUSE on every
+    attempt / EACCES); a discovery request is broadcast while the node is up, then Server.restart() (last run:
+    Server.shutdown()), a last request after the end.  Judged: who sent what in which run against the tcp ports on which
+    the node accepts connections at that moment."""
     global WORLD          # pylint: disable=global-statement
     import io
+    import socket as realsocket
+    import socketserver
     import sys
-    case = {'kind': 'restart', 'runs': runs, 'reverse': reverse}
+    import types
+    variant = variant or VARIANTS[0]
+    case = {'kind': 'restart', 'runs': runs, 'reverse': reverse, 'variant': variant}
     part.evaluations += 1
     part.states += 1
-    if len(runs) > 1:
+    if len(runs) > 1 or variant['retries'] or any(r['fail'] for r in runs):
         part.nontrivial += 1
     first = runs[0]
     node_cfg = {'interface': first['interface'], 'equipment_id': RESTART_EID, 'description': RESTART_DESC}
     if first['secondary']:
         node_cfg['secondary'] = list(first['secondary'])
     node = nodes.Node({}, node_cfg=node_cfg, start=True)
-    world = WORLD = World(node, runs, reverse)
-    saved = frappy.server.mkthread, frappy.server.get_class, frappy.server.MultiEvent, sys.stdout, SocketShim.socket
+    world = WORLD = World(node, runs, variant, reverse)
+    tcpmod = frappy.protocol.interface.tcp
+    saved = (frappy.server.mkthread, frappy.server.get_class, frappy.server.MultiEvent, sys.stdout, SocketShim.socket,
+             socketserver.socket, tcpmod.time)
     frappy.server.mkthread, frappy.server.get_class, frappy.server.MultiEvent = world.mkthread, world_get_class, WorldMultiEvent
     SocketShim.socket = LiveSocket
-    FakeInterface.FAIL = failing_uris(first)
-    FakeInterface.STARTED = []
+    shim = types.SimpleNamespace(**{k: getattr(realsocket, k) for k in dir(realsocket) if not k.startswith('__')})
+    shim.socket = FakeTcpSocket
+    socketserver.socket = shim
+    sleeper = tcpmod.time = SleepShim()
     sys.stdout = io.StringIO()
     exc = None
     leaked = []
@@ -927,44 +1110,51 @@ def run_restart(part, runs, reverse=False):
             exc = e
         leaked = world.finish()
     finally:
-        world.cleanup = True
-        for sock in world.sockets:
-            if not sock.closed:
-                sock.close()
-        frappy.server.mkthread, frappy.server.get_class, frappy.server.MultiEvent, sys.stdout, SocketShim.socket = saved
+        world.down = True
+        world.cleanup()
+        (frappy.server.mkthread, frappy.server.get_class, frappy.server.MultiEvent, sys.stdout, SocketShim.socket,
+         socketserver.socket, tcpmod.time) = saved
         WORLD = None
         node.close()
     what = Lazy(lambda: 'Server.run: ' + '; then restart: '.join(
-        f'run {k + 1} interfaces {norm_uris(r)}' + (f' of which {sorted(failing_uris(r))} fail to start' if r['fail'] else '')
-        for k, r in enumerate(runs)) + f' (interface threads run {"last" if reverse else "first"} created first)')
-    part.transitions += 1 + sum(s.calls for s in world.sockets) + sum(len(norm_uris(r)) for r in runs[:world.run + 1])
+        f'run {k + 1} interfaces {norm_uris(r)}' + (f' of which {sorted(failing_uris(r))} cannot be bound '
+                                                   f'({"EADDRINUSE on every attempt" if variant["failkind"] == "busy" else "EACCES"})'
+                                                   if r['fail'] else '')
+        for k, r in enumerate(runs)) + f'; bind of the others succeeds after {variant["retries"]} EADDRINUSE '
+        f'(interface threads run {"last" if reverse else "first"} created first)')
+    part.transitions += (1 + sum(s.calls for s in world.sockets) + world.bind_attempts + len(world.threads))
     part.traces += 1
+    part.extra['restart_bind_attempts'] += world.bind_attempts
     if exc is not None:
         part.violation(f'C19:restart:run-raises:{type(exc).__name__}', case, f'{what}: {exc!r}')
         part.outcomes['restart:raises'] += 1
         return
     reached = world.run + 1
-    for k in range(reached):
-        expect = [u for u in norm_uris(runs[k]) if u not in failing_uris(runs[k])]
-        if sorted(world.started[k]) != sorted(expect):
-            raise core.Inconclusive(f'{what}: run {k + 1} started {world.started[k]}, planned {expect}')
     nbad = sum(v[0] for v in part.violations.values())
     when = lambda k: 'first-run' if k == 0 else 'after-restart'      # noqa
+    # the plan must have been executed: an interface that can be bound serves, when the node was up
+    for k in world.up_ports:
+        planned = tcp_ports([u for u in norm_uris(runs[k]) if u not in failing_uris(runs[k])])
+        if not set(world.up_ports[k]) <= set(planned):
+            raise core.Inconclusive(f'{what}: run {k + 1} accepts on {world.up_ports[k]}, planned {planned}')
+        if sorted(world.up_ports[k]) != sorted(planned):
+            part.violation(f'C19:restart:interface-not-serving-although-its-port-could-be-bound:{when(k)}', case,
+                           f'{what}: run {k + 1} accepts on {world.up_ports[k]}, ports that can be bound: {planned}')
     # every listener thread must survive its datagrams
     for sock in world.sockets:
         if sock.thread is not None and sock.thread.exc is not None:
             part.violation(f'C19:restart:listener-thread-died:{type(sock.thread.exc).__name__}', case,
                            f'{what}: listener of run {sock.run + 1}: {sock.thread.exc!r}')
-    # one listener per run that opened something
+    # one listener per run in which the node was up
     for k in range(reached):
         n = sum(1 for s in world.sockets if s.run == k)
-        if world.started[k] and n != 1:
+        if world.up_ports.get(k) and n != 1:
             part.violation(f'C19:restart:{n}-listeners-started:{when(k)}', case, f'{what}: run {k + 1}')
-    # every datagram: sent by the listener of THIS run, naming a tcp port opened in THIS run
+    # every datagram: sent by the listener of THIS run, naming a tcp port on which the node accepts connections NOW
     answers = {}
-    for run, down, idx, pos, data, addr in world.sends:
+    for run, down, idx, pos, data, addr, ports in world.sends:
         sock = world.sockets[idx]
-        ports = [] if down else tcp_ports(world.started[run])
+        ports = [] if down else list(ports)
         phase = 'announce' if pos == 0 else 'answer'
         problem, _ = judge_message(data, RESTART_EID, RESTART_DESC, ports)
         try:
@@ -983,31 +1173,32 @@ def run_restart(part, runs, reverse=False):
         else:
             if problem:
                 part.violation(f'C19:restart:{phase}:{problem}:{when(run)}', case,
-                               f'{what}: in run {run + 1} the node listens on tcp ports {ports} but its listener sent a '
-                               f'{phase} datagram with port {port!r}: {data[:200]!r}')
+                               f'{what}: in run {run + 1} the node accepts connections on tcp ports {ports} but its listener sent '
+                               f'a {phase} datagram with port {port!r}: {data[:200]!r}')
             if phase == 'answer':
                 answers.setdefault(run, []).append((addr, port))
-    for k in range(reached):
-        if not world.up_seen[k]:
-            continue
-        ports = tcp_ports(world.started[k])
+    for k in world.up_ports:
+        ports = world.up_ports[k]
         got = [port for addr, port in answers.get(k, []) if addr == addr_of(k)]
         if sorted(map(repr, got)) != sorted(map(repr, ports)):
             part.violation(f'C19:restart:answer:not-exactly-one-answer-per-tcp-port:{when(k)}', case,
                            f'{what}: the request in run {k + 1} was answered by the current listener with ports {got}, '
-                           f'the node listens on {ports}')
+                           f'the node accepts connections on {ports}')
         if any(addr != addr_of(k) for addr, _ in answers.get(k, [])):
             part.violation(f'C19:restart:answer:sent-to-an-address-that-sent-nothing:{when(k)}', case, f'{what}: run {k + 1}')
     bad = nbad != sum(v[0] for v in part.violations.values())
-    label = f'{len(runs)}-runs-planned:{reached}-reached:' + ('VIOLATION' if bad else 'consistent')
+    label = (f'{len(runs)}-runs-planned:{reached}-reached:retries-{variant["retries"]}:'
+             + ('VIOLATION' if bad else 'consistent'))
     if leaked:
         label += ':listener-sockets-left-open'
     part.extra['restart_listener_sockets_left_open'] += len(leaked)
+    part.extra['restart_virtual_sleep_tenths_of_s'] += int(round(sleeper.slept * 10))
     part.outcomes['restart:' + label] += 1
-    if part.evaluations % 37 == 1:
-        part.sample({'sub': 'restart', 'runs': [{'interfaces': norm_uris(r), 'fail': sorted(failing_uris(r))} for r in runs],
-                     'sent': [[run + 1, 'down' if down else 'up', f'listener-of-run-{world.sockets[idx].run + 1}', len(d)]
-                              for run, down, idx, pos, d, a in world.sends][:8], 'result': label})
+    if part.evaluations % 97 == 1:
+        part.sample({'sub': 'restart', 'runs': [{'interfaces': norm_uris(r), 'cannot be bound': sorted(failing_uris(r))} for r in runs],
+                     'variant': variant,
+                     'sent': [[run + 1, 'down' if down else 'up', f'listener-of-run-{world.sockets[idx].run + 1}', len(d), list(p)]
+                              for run, down, idx, pos, d, a, p in world.sends][:8], 'result': label})
 
 
 ALT_CFGS = [('tcp://10767', []), ('tcp://10769', ['tcp://10768'])]      # what a restart may change the interfaces to
@@ -1058,7 +1249,7 @@ def run(ctx):
     if want('server'):
         ctx.pmap(shard_fn, [('server', i) for i in range(len(SERVER_CFGS))], name='server')
     if want('restart'):
-        ctx.pmap(shard_fn, [('restart', i) for i in range(len(SERVER_CFGS))], name='restart')
+        ctx.pmap(shard_fn, [('restart', i, v) for i in range(len(SERVER_CFGS)) for v in range(len(VARIANTS))], name='restart')
     ctx.rule = (
         'enumeration of the real UDPListener (constructor + run() on a scripted datagram socket): '
         f'pure = {len(EIDS)} equipment ids x 8 character classes x every description length 0..{b["maxlen"]} x 8 interface lists; '
@@ -1068,8 +1259,10 @@ def run(ctx):
         f'lists x broadcast on/off x every sequence of <= {b["depth"]} datagrams over {len(DNAMES)} kinds (+ liveness probe); '
         'server = real Server.run x 7 interface configurations x every subset of failing interfaces; '
         f'restart = real Server.run over <= {b["restart_runs"]} iterations (Server.restart between them): 7 first configurations x '
-        '{same, 2 changed} interface lists per later run x every subset of interfaces failing to start in every run x 2 thread '
-        'orders, a broadcast request in every run and one after the end, listener threads parked in recvfrom until closed. '
+        '{same, 2 changed} interface lists per later run x every subset of interfaces whose port cannot be bound in every run x '
+        f'{len(VARIANTS)} bind variants (EADDRINUSE 0..4 times before success; EADDRINUSE for ever / EACCES) x 2 thread orders, real '
+        'TCPServer constructor on a fake TCP socket layer, a broadcast request in every run and one after the end, listener and '
+        'interface threads parked in recvfrom / the accept loop until closed. '
         'evaluations = executions of constructor + loop; distinct_nontrivial = executions in which the description must be cut / '
         'the identity does not fit / a non-request datagram is in the sequence / an interface fails; states = distinct cases; '
         'transitions = calls into the listener + socket calls made by it')
@@ -1081,7 +1274,9 @@ def run(ctx):
                'is the shutdown path of the real code',
                'firmware is "FRAPPY " + a constant version (get_version() raises in this checkout and is bound by the harness)',
                'Server.run: interface threads run inline (each interface starts or fails, then serves until shut down at once); '
-               'restart: the listener thread is a real thread under strict hand-off with the exploring thread (never concurrent); '
+               'restart: listener and interface threads are real threads under strict hand-off with the exploring thread (never '
+               'concurrent); the accept loop of an interface is replaced (serve_forever refuses a socket that is not listening, as '
+               'the selector does; otherwise it serves until shutdown); '
                'a broadcast request reaches every open socket bound to the discovery port (SO_REUSEPORT); '
                'real sockets, the 12 s start-up timeout and the Windows branch are not covered',
                'equipment ids / descriptions outside the eight character classes (e.g. lone surrogates) are not covered')
@@ -1090,7 +1285,7 @@ def run(ctx):
 def replay(case):
     part = core.Part()
     if case['kind'] == 'restart':
-        run_restart(part, case['runs'], case.get('reverse', False))
+        run_restart(part, case['runs'], case.get('reverse', False), case.get('variant'))
     elif case['kind'] == 'server':
         run_server(part, case['interface'], case['secondary'], case['fail'], case.get('reverse', False))
     else:
